@@ -288,7 +288,15 @@ def run(index: RepoIndex, rep) -> None:
     # ---------------------------------------------------------------- R3
     geo = Geometry(index)
     pipe = Pipeline(index, geo)
-    sub = Subgrid(index)
+    from ..obsmodel import SubgridUnmodelled
+    try:
+        sub = Subgrid(index)
+    except SubgridUnmodelled as ex:
+        for e_, t_ in ex.shared:
+            rep.violation('C03.R3', GRID, 'Grid.subgrid', e_.line, t_,
+                          f'Grid.subgrid can return its own row lists (`{t_}`): masking an '
+                          f'observation would write Hidden into the state')
+        raise
     sf = sub.func
     rep.check(not sub.aliasing_returns, 'C03.R3', GRID, 'Grid.subgrid', sf.node.lineno,
               '; '.join(t for _, t in sub.aliasing_returns) or 'Grid.subgrid',
